@@ -276,7 +276,7 @@ func checkC08(p *Prog, rp *Report) {
 	}
 
 	// C08-SEP
-	sep := rp.Rule("C08-SEP", "the encoder separates paragraphs with exactly one blank line; its state is shared through pointer receivers", 5)
+	sep := rp.Rule("C08-SEP", "the encoder separates paragraphs with exactly one blank line; its state is shared through pointer receivers", 4)
 	encT := p.Named("control", "Encoder")
 	if encT == nil {
 		sep.bad("control.Encoder", "", "type not found", nil)
@@ -295,44 +295,82 @@ func checkC08(p *Prog, rp *Report) {
 		if es == nil {
 			sep.bad("control.Encoder:paragraph-writer", "", "no Encoder method writes paragraphs", nil)
 		} else {
-			tm := newTermer()
 			epos := p.Pos(es.Pos())
-			// (1) guarded separator write
-			okSep := false
-			for _, g := range guardsOf(es) {
-				if g.Term == "p0.alreadyWritten" || strings.HasSuffix(g.Term, ".alreadyWritten") {
-					then := g.If.Block().Succs[0]
-					for _, ins := range then.Instrs {
-						if c, ok := ins.(*ssa.Call); ok && c.Call.IsInvoke() && c.Call.Method.Name() == "Write" {
-							if conv, ok := c.Call.Args[0].(*ssa.Convert); ok {
-								if s, ok := constString(conv.X); ok && s == "\n" {
-									okSep = true
-								}
-							}
+			// interpret the paragraph-writing method three times on one Encoder, with
+			// the struct conversion and the paragraph writer replaced by oracles that
+			// record what reaches the output, in order
+			ctp := p.Func("control", "convertToParagraph")
+			pt := p.Named("control", "Paragraph")
+			var problems []string
+			for _, failAt := range []int{0, 2} { // 0: no failure; 2: the second conversion fails
+				m := NewMachine(p, nil)
+				installStringModels(m)
+				var out []string
+				conv := 0
+				if ctp != nil {
+					m.Hooks[ctp.String()] = func(m *Machine, st *State, call *ssa.CallCommon, args []Val) ([]Val, bool) {
+						conv++
+						if conv == failAt {
+							return []Val{&TupleV{E: []Val{nilV{}, IfaceV{T: errType, V: "conversion failed"}}}}, true
 						}
+						id := st.alloc(pt, mkStruct(pt, map[string]Val{"Order": strSlice(st, []string{fmt.Sprintf("P%d", conv)})}))
+						return []Val{&TupleV{E: []Val{Ptr{Obj: id}, nilV{}}}}, true
 					}
 				}
-			}
-			sep.check(okSep, fname(es)+":separator", epos, "writes \"\\n\" iff a paragraph was written before", "the blank line between paragraphs is not written exactly when a paragraph has been written before")
-			// (2) flag set on the path to the paragraph write
-			through := map[*ssa.BasicBlock]bool{}
-			for _, b := range es.Blocks {
-				for _, ins := range b.Instrs {
-					if st, ok := ins.(*ssa.Store); ok && strings.HasSuffix(tm.term(st.Addr), ".alreadyWritten") {
-						if c, ok := st.Val.(*ssa.Const); ok && c.Value != nil && c.Value.String() == "true" {
-							through[b] = true
-						}
+				m.Hooks[wt.String()] = func(m *Machine, st *State, call *ssa.CallCommon, args []Val) ([]Val, bool) {
+					pv, _ := st.load(args[0].(Ptr))
+					o, _, _ := m.sliceElems(st, pv.(*StructV).F[fieldIndex(structOf(pt), "Order")])
+					out = append(out, "<"+o[0].(string)+">")
+					return []Val{nilV{}}, true
+				}
+				m.InvokeHook = func(m *Machine, st *State, call *ssa.CallCommon, recv Val, args []Val) ([]Val, bool) {
+					if call.Method.Name() != "Write" {
+						return nil, false
+					}
+					elems, _, ok := m.sliceElems(st, args[0])
+					if !ok {
+						return nil, false
+					}
+					var b strings.Builder
+					for _, e := range elems {
+						n, _ := e.(int64)
+						b.WriteByte(byte(n))
+					}
+					out = append(out, fmt.Sprintf("%q", b.String()))
+					return []Val{&TupleV{E: []Val{int64(len(elems)), nilV{}}}}, true
+				}
+				st := initState(m, "control")
+				wid := st.alloc(types.Typ[types.Int], OpaqueV{"writer"})
+				eid := st.alloc(encT, mkStruct(encT, map[string]Val{"writer": IfaceV{T: types.NewPointer(types.Typ[types.Int]), V: Ptr{Obj: wid}}}))
+				undec := ""
+				for i := 0; i < 3; i++ {
+					st.Status = stRun
+					st.push(es, []Val{Ptr{Obj: eid}, OpaqueV{"struct-value"}}, nil)
+					res := m.Run(st)
+					if len(res) != 1 || res[0].Status != stRet {
+						undec = retDesc(res)
+						break
 					}
 				}
-			}
-			okFlag := len(through) > 0
-			for _, c := range callsNamed(es, wt.String()) {
-				if !everyPathPasses(es, through, c.Block()) {
-					okFlag = false
+				if undec != "" {
+					problems = append(problems, "undecided: "+undec)
+					continue
+				}
+				got := strings.Join(out, " ")
+				want := `<P1> "\n" <P2> "\n" <P3>`
+				if failAt == 2 {
+					// the failed paragraph writes nothing of its own; what matters is that P3 is still separated from P1
+					if !strings.HasPrefix(got, `<P1>`) || !strings.HasSuffix(got, `"\n" <P3>`) || strings.Contains(got, "<P2>") {
+						problems = append(problems, fmt.Sprintf("when the second value cannot be converted the output is %s", got))
+					}
+					continue
+				}
+				if got != want {
+					problems = append(problems, fmt.Sprintf("three paragraphs encoded one after another give %s, want %s", got, want))
 				}
 			}
-			sep.check(okFlag, fname(es)+":flag", epos, "the flag is set on every path that writes a paragraph", "a paragraph can be written without the 'already written' flag being set: the next paragraph is glued to it")
-			// (3) separator error returned
+			fillProblems(sep, fname(es)+":separator", epos, problems, "three consecutive paragraphs are written as P1 \"\\n\" P2 \"\\n\" P3 (exactly one blank line before every paragraph but the first)")
+			// separator error returned
 			for _, s := range errDiscipline(es, func(n string, c *ssa.Call) bool { return c.Call.IsInvoke() && c.Call.Method.Name() == "Write" }) {
 				sep.check(s.Status == "checked" || s.Status == "returned", fname(es)+":write-error", p.Pos(s.Call.Pos()), "a failing separator write is returned", "the error of writing the separator is "+s.Status)
 			}
